@@ -842,6 +842,8 @@ def run(ctx) -> None:
     ctx.guard_as("R02.14", _r20_1, _Fx(ctx.eng.prog, ctx.eng.cg), {f for f in ctx.eng.prog.all_functions() if _inf(f, "jwe")})  # what is decrypted is this message's own segments: no class-level / shared containers
     from .c17 import r17_2_5 as _r17_2_5
     ctx.guard_as("R02.15", _r17_2_5)  # "returns only the authenticated plaintext": all of it or an error, never a prefix
+    from .c08 import r08_2_produce as _r08_2p
+    ctx.guard_as("R02.17", _r08_2p)  # what is authenticated is protected '.' BASE64URL(aad): without the separator two different (header, aad) pairs share one AAD
     from .common import syntax_dispatch
     ctx.guard(syntax_dispatch, "R02.16", "rfc7516.json:extract_general_json", "rfc7516.json:extract_flattened_json", "recipients")  # every recipient entry present is looked at
     from .common import forwarding_discipline
